@@ -24,28 +24,36 @@ def defs(s):
 
 CLASS = {"ksi": 1, "ksi+http": 1, "ksi+https": 2, "ksi+tcp": 3, "file": 4}
 
-# ---------------------------------------------------------------- H-1 split
-H1_QUICK = [
-    ("ksi_min", shape("ksi", None, 0, 1)),
-    ("tcp_ui_port2", shape("ksi+tcp", (1, 1), 0, 2, 2, 2)),
-    ("https_full", shape("ksi+https", (2, 2), 0, 3, 5, 3, 2, 2)),
-    ("http_quad", shape("ksi+http", None, 1, 0, 1, 1, 1, 0)),
-    ("ksi_v6", shape("ksi", (0, 1), 2, 3, 4, 2, 0, 1)),
-    ("plainhttp_query_nopath", shape("http", (1, 0), 0, 3, 3, 0, 2, 0)),
-    ("xy_frag", shape("xy", None, 0, 2, 0, 3, 0, 2)),
-    ("plainhttps_colonkey", shape("https", (1, 2), 0, 1, 5, 1)),
-    ("file_path", shape("file", None, 3, 0, 0, 3)),
+# ---------------------------------------------------------------- shapes shared by H-1 (split), H-3 (blocking dispatch), H-4 (async dispatch)
+# (label, shape, H-3 params (explicit id len, explicit key len, extender), in-situ split in H-3, H-4 params or None)
+S_QUICK = [
+    ("ksi_min", shape("ksi", None, 0, 1), (0, 0, 0), 0, (0, 0, 0, 0)),
+    ("ksi_ui_full", shape("ksi", (2, 2), 0, 3, 4, 3, 2, 2), (0, 0, 0), 1, None),
+    ("ksihttp_ui_expl_both", shape("ksi+http", (1, 1), 0, 2, 2, 2, 1, 0), (2, 2, 0), 0, (1, 1, 1, 0)),
+    ("ksihttps_quad_expl_id", shape("ksi+https", None, 1, 0, 3, 1, 0, 1), (1, 0, 1), 0, (0, 0, 0, 1)),
+    ("ksihttp_ui_expl_key_nopath", shape("ksi+http", (1, 2), 0, 2, 5, 0, 1, 0), (0, 1, 1), 0, None),
+    ("ksihttp_v6", shape("ksi+http", (1, 1), 2, 3, 2, 2), (0, 0, 0), 1, (0, 0, 1, 0)),
+    ("ksi_v6_emptyuser", shape("ksi", (0, 1), 2, 3, 4, 2, 0, 1), (0, 0, 1), 0, None),
+    ("tcp_ui", shape("ksi+tcp", (2, 1), 0, 3, 4, 0), (0, 0, 0), 1, (0, 0, 0, 0)),
+    ("tcp_quad_expl", shape("ksi+tcp", None, 1, 0, 5, 2), (1, 1, 1), 0, (1, 0, 1, 1)),
+    ("tcp_v6_ui_expl_id", shape("ksi+tcp", (1, 1), 2, 3, 1, 0), (1, 0, 0), 0, None),
+    ("file_path", shape("file", None, 3, 0, 0, 3), (1, 1, 0), 0, (0, 0, 0, 0)),
+    ("file_path_ext", shape("file", None, 3, 0, 0, 2), (0, 0, 1), 0, None),
+    ("plainhttp_ui_query_nopath", shape("http", (1, 0), 0, 3, 3, 0, 2, 0), (0, 0, 0), 0, (0, 0, 1, 0)),
+    ("plainhttps_colonkey_expl", shape("https", (1, 2), 0, 1, 5, 1), (1, 1, 1), 0, None),
+    ("xy_frag_expl_id", shape("xy", (1, 1), 0, 2, 0, 3, 0, 2), (1, 0, 0), 0, (1, 1, 0, 0)),
+]
+S_THOROUGH = S_QUICK + [
+    ("long_ksihttps", shape("ksi+https", (3, 3), 0, 5, 5, 5, 3, 3), (0, 0, 0), 1, (0, 0, 0, 0)),
+    ("long_tcp_v6", shape("ksi+tcp", (2, 3), 2, 7, 5, 0), (0, 2, 1), 1, (0, 0, 1, 1)),
+    ("ksi_quad_noport_query", shape("ksi", (1, 1), 1, 0, 0, 0, 2, 0), (0, 0, 0), 1, None),
+    ("ksihttp_port1_frag_nopath", shape("ksi+http", None, 0, 4, 1, 0, 0, 2), (2, 2, 1), 1, None),
+    ("tcp_quad_ui", shape("ksi+tcp", (2, 2), 1, 0, 4, 0), (0, 0, 0), 1, None),
 ]
 H1_BASIC = [
     ("basic_tcp_ui_port2", shape("ksi+tcp", (1, 1), 0, 2, 2, 2)),
     ("basic_v6_query", shape("ksi+http", (1, 1), 2, 3, 1, 2, 1, 0)),
     ("basic_file", shape("file", None, 3, 0, 0, 2)),
-]
-H1_THOROUGH = H1_QUICK + [
-    ("long_all", shape("ksi+https", (3, 3), 0, 5, 5, 5, 3, 3)),
-    ("long_v6", shape("ksi+tcp", (2, 3), 2, 7, 5, 4, 2, 2)),
-    ("quad_ui", shape("ksi+tcp", (2, 2), 1, 0, 4, 0)),
-    ("http_port1_frag_nopath", shape("ksi+http", None, 0, 4, 1, 0, 0, 2)),
 ]
 
 
@@ -53,16 +61,17 @@ def inst(label, s, extra=(), unwind_extra=3):
     return {"label": label, "defines": defs(s) + list(extra), "unwind": s["urilen"] + unwind_extra}
 
 
+SLICE = ["--slice-formula"]
 h1 = {
     "name": "h1_split", "src": "h1_split.c",
     "env": ["c20_ctx", "c20_strtoul", "c20_libc"], "tus": ["http_parser"],
-    "unwind": 40, "timeout": 400, "mem_gb": 8, "object_bits": 10,
+    "unwind": 40, "timeout": 400, "mem_gb": 8, "object_bits": 10, "cbmc_flags": SLICE,
     "functions": ["uriSplit", "KSI_UriSplitBasic", "newStringFromExisting", "http_parser_parse_url", "parse_url_char", "http_parse_host", "http_parse_host_char"],
     "bound": "URIs of the enumerated shapes (scheme from {ksi, ksi+http, ksi+https, ksi+tcp, file, http, https, xy} in every letter case; user-info absent or "
-             "user 0..2 : key 0..2 characters (thorough 3); host name 1..3 (thorough 5) characters / d.d.d.d / [IPv6 literal of 3 (thorough 7) characters] / empty authority; "
+             "user 0..2 : key 0..2 characters (thorough 3); host name 1..3 (thorough 5) characters / d.d.d.d / [::x] IPv6 literal of 3 (thorough 7) characters / empty authority; "
              "port absent or 1..5 decimal digits of a symbolic value in 1..65535; path, query, fragment absent or up to 3 (thorough 5) characters); every character symbolic within its RFC 3986 class",
-    "instances": [inst(l, s) for l, s in H1_QUICK] + [inst(l, s, ["C20_BASIC=1"]) for l, s in H1_BASIC],
-    "thorough": {"instances": [inst(l, s) for l, s in H1_THOROUGH] + [inst(l, s, ["C20_BASIC=1"]) for l, s in H1_BASIC], "timeout": 1800},
+    "instances": [inst(l, s) for l, s, _, _, _ in S_QUICK] + [inst(l, s, ["C20_BASIC=1"]) for l, s in H1_BASIC],
+    "thorough": {"instances": [inst(l, s) for l, s, _, _, _ in S_THOROUGH] + [inst(l, s, ["C20_BASIC=1"]) for l, s in H1_BASIC], "timeout": 1800},
 }
 # exact-size allocation (env/ctx.c): memory safety of the component copies, one shape, thorough only
 h1x = dict(h1)
@@ -80,56 +89,39 @@ h2 = {
     "instances": [{"label": "len%d" % n, "defines": ["SLEN=%d" % n]} for n in range(1, 11)],
 }
 
-# ---------------------------------------------------------------- H-3 service dispatch
-PORTS = {1: [1, 9], 2: [80, 10, 99], 3: [443, 100, 999], 4: [8080, 1000, 9999], 5: [65535, 10000, 12345]}
-_portrot = {}
-
-
-def portval(pdig):
-    """HTTP-composition instances use a concrete port (see c20_uri.h C20_PORTVAL): rotate through boundary values per digit count"""
-    k = _portrot.get(pdig, 0)
-    _portrot[pdig] = k + 1
-    return PORTS[pdig][k % len(PORTS[pdig])]
-
-
-def h3inst(label, s, expl=(0, 0), extender=0, extra=()):
+# ---------------------------------------------------------------- H-3 blocking service dispatch, H-4 async
+def h3inst(label, s, par, insitu):
     cls = CLASS.get(s["scheme"], 0)
-    extra = list(extra)
-    return inst(label, s, ["C20_CLASS=%d" % cls, "C20_EXPL_ID=%d" % expl[0], "C20_EXPL_KEY=%d" % expl[1], "C20_EXTENDER=%d" % extender] + list(extra))
+    return inst(label + ("_insitu" if insitu else ""), s, ["C20_CLASS=%d" % cls, "C20_EXPL_ID=%d" % par[0], "C20_EXPL_KEY=%d" % par[1], "C20_EXTENDER=%d" % par[2], "C20_SPLIT_INSITU=%d" % insitu])
 
 
-H3_QUICK = [
-    h3inst("ksi_ui_full", shape("ksi", (2, 2), 0, 3, 4, 3, 2, 2)),
-    h3inst("ksihttp_ui_explicit_both", shape("ksi+http", (1, 1), 0, 2, 2, 2, 1, 0), (2, 2)),
-    h3inst("ksihttps_noui_explicit_id", shape("ksi+https", None, 1, 0, 3, 1, 0, 1), (1, 0), 1),
-    h3inst("ksi_min", shape("ksi", None, 0, 1)),
-    h3inst("ksihttp_ui_explicit_key_only", shape("ksi+http", (1, 2), 0, 2, 5, 0, 1, 0), (0, 1), 1),
-    h3inst("ksihttp_v6", shape("ksi+http", (1, 1), 2, 3, 2, 2)),
-    h3inst("tcp_ui", shape("ksi+tcp", (2, 1), 0, 3, 4, 0)),
-    h3inst("tcp_noui_explicit", shape("ksi+tcp", None, 1, 0, 5, 2), (1, 1), 1),
-    h3inst("tcp_v6_ui_explicit_id", shape("ksi+tcp", (1, 1), 2, 3, 1, 0), (1, 0)),
-    h3inst("file_path", shape("file", None, 3, 0, 0, 3), (1, 1)),
-    h3inst("file_path_ext", shape("file", None, 3, 0, 0, 2), (0, 0), 1),
-    h3inst("plainhttp_ui", shape("http", (1, 1), 0, 2, 2, 2, 1, 1), (0, 0)),
-    h3inst("plainhttps_explicit", shape("https", None, 0, 3, 0, 1), (1, 1), 1),
-    h3inst("xy_ui_explicit_id", shape("xy", (1, 1), 0, 1, 1, 0), (1, 0)),
-]
-H3_THOROUGH = H3_QUICK + [
-    h3inst("long_ksihttps", shape("ksi+https", (3, 3), 0, 5, 5, 5, 3, 3), (0, 0)),
-    h3inst("long_tcp_v6", shape("ksi+tcp", (2, 3), 2, 7, 5, 0), (0, 2), 1),
-    h3inst("ksi_quad_noport_query", shape("ksi", (1, 1), 1, 0, 0, 0, 2, 0), (0, 0)),
-]
+def h4inst(label, s, par):
+    cls = CLASS.get(s["scheme"], 0)
+    return inst(label, s, ["C20_CLASS=%d" % cls, "C20_EXPL_ID=%d" % par[0], "C20_EXPL_KEY=%d" % par[1], "C20_EXTENDER=%d" % par[2], "C20_ADD=%d" % par[3]])
+
+
 h3 = {
     "name": "h3_service", "src": "h3_service.c",
     "env": ["c20_ctx", "c20_strtoul", "c20_libc", "c20_vsnprintf"],
     "tus": ["net_uri", "http_parser", "compatibility", "net_file"],
-    "unwind": 40, "timeout": 400, "mem_gb": 8, "object_bits": 10,
-    "functions": ["KSI_UriClient_setAggregator", "KSI_UriClient_setExtender", "uriClient_setService", "uriSplit", "uriCompose", "getClientByUriScheme",
-                  "KSI_UriClient_new", "KSI_AbstractNetworkClient_new", "KSI_snprintf", "KSI_vsnprintf", "KSI_strcasecmp", "http_parser_parse_url",
+    "unwind": 40, "timeout": 400, "mem_gb": 8, "object_bits": 10, "cbmc_flags": SLICE,
+    "functions": ["KSI_UriClient_setAggregator", "KSI_UriClient_setExtender", "uriClient_setService", "uriSplit (in-situ instances)", "uriCompose", "getClientByUriScheme",
+                  "KSI_UriClient_new", "KSI_AbstractNetworkClient_new", "KSI_snprintf", "KSI_vsnprintf", "KSI_strcasecmp",
                   "KSI_FsClient_extractPath", "KSI_FsClient_new", "KSI_FsClient_setAggregator", "KSI_FsClient_setExtender"],
-    "bound": "URIs of the enumerated shapes (as h1_split) x explicit login id / key argument absent or 1..2 symbolic bytes x aggregator / extender",
-    "instances": H3_QUICK,
-    "thorough": {"instances": H3_THOROUGH, "timeout": 1800},
+    "bound": "the URI shapes of h1_split x explicit login id / key argument absent or 1..2 symbolic bytes x aggregator / extender; instances *_insitu also run the real uriSplit inside the query",
+    "instances": [h3inst(l, s, p, i) for l, s, p, i, _ in S_QUICK],
+    "thorough": {"instances": [h3inst(l, s, p, 1) for l, s, p, i, _ in S_THOROUGH], "timeout": 1800},
+}
+h4 = {
+    "name": "h4_async", "src": "h4_async.c",
+    "env": ["c20_ctx", "c20_strtoul", "c20_libc", "c20_vsnprintf"],
+    "tus": ["net_async", "http_parser", "compatibility"],
+    "unwind": 40, "timeout": 400, "mem_gb": 8, "object_bits": 10, "cbmc_flags": SLICE,
+    "functions": ["KSI_SigningAsyncService_new", "KSI_ExtendingAsyncService_new", "KSI_AsyncService_setEndpoint", "KSI_AsyncService_addEndpoint", "asyncService_setupAsyncClient",
+                  "KSI_AbstractAsyncService_new", "uriCompose", "getClientByUriScheme", "KSI_snprintf", "KSI_vsnprintf"],
+    "bound": "a subset of the URI shapes of h1_split x explicit credentials x signing / extending service x setEndpoint / addEndpoint (uriSplit obligation discharged by h1_split)",
+    "instances": [h4inst(l, s, q) for l, s, _, _, q in S_QUICK if q is not None],
+    "thorough": {"instances": [h4inst(l, s, q) for l, s, _, _, q in S_THOROUGH if q is not None], "timeout": 1800},
 }
 
 # ---------------------------------------------------------------- H-0 models / uriCompose
@@ -154,7 +146,7 @@ plan = {
     "property": "C20",
     "outside": "TBD", "assumptions": [],
     "manifest": {"claimed": True, "level_text": "TBD", "level_note": "TBD"},
-    "harnesses": [h0s, h0c, h1, h1x, h2, h3],
+    "harnesses": [h0s, h0c, h1, h1x, h2, h3, h4],
 }
 extra = os.path.join(HERE, "plan_extra.json")
 if os.path.exists(extra):
